@@ -107,13 +107,22 @@ fn c32_rotate_hue_360_identity_hsla() {
         _ => assert!(false, "rotate_hue keeps the hsl representation"),
     }
 }
-/// C32: rotating by d and then by -d restores hue (finite d, |d| <= 1e6).
-#[kani::proof]
-#[kani::stub(crate::value::colors::hsla::deg_mod, crate::value::colors::hsla::kani_verif::deg_mod_by_contract)]
-fn c32_rotate_hue_cancel_hsla() {
+/// C32: rotating by d and then by -d restores hue, for |d| <= 360 (the
+/// interval on which the assumed deg_mod contract is exact; outside it the
+/// contract only says "some angle in [0,360)", which cannot carry this law).
+/// One harness per way the first rotation can wrap (the undivided query did
+/// not finish in 15 minutes): the four cases cover every (hue, d).
+fn rotate_hue_cancel(case: u8) {
     let h = any_hsla_valid();
     let d: f64 = kani::any();
-    kani::assume(-1.0e6 <= d && d <= 1.0e6);
+    kani::assume(-360.0 <= d && d <= 360.0);
+    let sum = h.hue() + d;
+    match case {
+        0 => kani::assume(d >= 0.0 && sum < 360.0),
+        1 => kani::assume(d >= 0.0 && sum >= 360.0),
+        2 => kani::assume(d < 0.0 && sum >= 0.0),
+        _ => kani::assume(d < 0.0 && sum < 0.0),
+    }
     let c = Color::Hsla(h.clone());
     let r = c.rotate_hue(d).rotate_hue(-d);
     let x = r.to_hsla();
@@ -121,6 +130,20 @@ fn c32_rotate_hue_cancel_hsla() {
     assert!(diff < 1e-6 || diff > 360.0 - 1e-6, "hue restored");
     assert!(x.sat() == h.sat() && x.lum() == h.lum() && x.alpha() == h.alpha());
 }
+macro_rules! gen_cancel {
+    ($name:ident, $case:expr) => {
+        #[kani::proof]
+        #[kani::stub(crate::value::colors::hsla::deg_mod, crate::value::colors::hsla::kani_verif::deg_mod_by_contract)]
+        fn $name() {
+            rotate_hue_cancel($case);
+        }
+    };
+}
+gen_cancel!(c32_rotate_hue_cancel_hsla_fwd_nowrap, 0);
+gen_cancel!(c32_rotate_hue_cancel_hsla_fwd_wrap, 1);
+gen_cancel!(c32_rotate_hue_cancel_hsla_back_nowrap, 2);
+gen_cancel!(c32_rotate_hue_cancel_hsla_back_wrap, 3);
+
 /// C32: rotate_hue on a hwb color keeps whiteness/blackness/alpha.
 #[kani::proof]
 #[kani::stub(crate::value::colors::hsla::deg_mod, crate::value::colors::hsla::kani_verif::deg_mod_by_contract)]
